@@ -313,7 +313,7 @@ fn dump_semantic(p: &Semantic<String>) -> String {
 // ------------------------------------------------------------------------------------------
 // miniscript generator with its own notion of what each spelling means
 #[derive(Clone, Debug)]
-enum G {
+pub enum G {
     True,
     False,
     Pk(String),  // sugar for c:pk_k
@@ -477,7 +477,7 @@ fn render(g: &G, sugar: &mut dyn FnMut() -> bool) -> (String, String) {
     }
 }
 
-fn render_full(g: &G, sugar: &mut dyn FnMut() -> bool) -> String {
+pub fn render_full(g: &G, sugar: &mut dyn FnMut() -> bool) -> String {
     let (w, b) = render(g, sugar);
     if w.is_empty() {
         b
@@ -486,12 +486,12 @@ fn render_full(g: &G, sugar: &mut dyn FnMut() -> bool) -> String {
     }
 }
 
-struct MsGen<'a> {
-    r: &'a mut Rng,
-    tap: bool,
-    nkeys: u32,
-    keyf: &'a dyn Fn(u32) -> String,
-    hashf: &'a dyn Fn(&'static str, u32) -> String,
+pub struct MsGen<'a> {
+    pub r: &'a mut Rng,
+    pub tap: bool,
+    pub nkeys: u32,
+    pub keyf: &'a dyn Fn(u32) -> String,
+    pub hashf: &'a dyn Fn(&'static str, u32) -> String,
 }
 impl MsGen<'_> {
     fn key(&mut self) -> String {
@@ -567,7 +567,7 @@ impl MsGen<'_> {
             _ => G::AndOr(Box::new(self.bdu(d - 1)), Box::new(self.v(d - 1)), Box::new(self.v(d - 1))),
         }
     }
-    fn b(&mut self, d: u32) -> G {
+    pub fn b(&mut self, d: u32) -> G {
         if d == 0 {
             return match self.r.below(8) {
                 0 => G::Pk(self.key()),
